@@ -281,7 +281,33 @@ fn knots_and_duplicates(c: &mut Choices) -> String {
     let mut s = String::new();
     let n = 1 + c.below(4);
     for k in 0..n {
-        match c.below(14) {
+        match c.below(16) {
+            14 | 15 => {
+                // very many variants / fields / arms / parameters: whatever is stored in a byte
+                // somewhere runs out between 255 and 257
+                let n = [127usize, 128, 129, 255, 256, 257, 300][c.below(7)];
+                match c.below(4) {
+                    0 => {
+                        let vs: Vec<String> = (0..n).map(|i| format!("W{i}")).collect();
+                        let arms: Vec<String> = (0..n).map(|i| format!("W{i} => {i}")).collect();
+                        let _ = writeln!(s, "enum Eb{k} {{ {} }}\nfn fb{k}(e: Eb{k}) -> i32 {{ match e {{ {} }} }}\nfn gb{k}() -> i32 {{ fb{k}(Eb{k}.W{}) + fb{k}(Eb{k}.W0) }}", vs.join(", "), arms.join(", "), n - 1);
+                    }
+                    1 => {
+                        let vs: Vec<String> = (0..n).map(|i| format!("W{i}(u8)")).collect();
+                        let _ = writeln!(s, "enum Ep{k} {{ {} }}\nfn fp{k}(e: Ep{k}) -> u8 {{ match e {{ W{}(x) => x, _ => 0 }} }}\nfn gp{k}() -> bool {{ Ep{k}.W{}(1) == Ep{k}.W0(1) }}", vs.join(", "), n - 1, n - 1);
+                    }
+                    2 => {
+                        let fs: Vec<String> = (0..n).map(|i| format!("w{i}: u8")).collect();
+                        let vs: Vec<String> = (0..n).map(|i| format!("w{i}: {}", i % 200)).collect();
+                        let _ = writeln!(s, "record Rb{k} {{ {} }}\nfn rb{k}() -> u8 {{ let r = Rb{k} {{ {} }}; r.w{} }}", fs.join(", "), vs.join(", "), n - 1);
+                    }
+                    _ => {
+                        let ps: Vec<String> = (0..n).map(|i| format!("p{i}: u8")).collect();
+                        let args: Vec<String> = (0..n).map(|i| format!("{}", i % 200)).collect();
+                        let _ = writeln!(s, "fn pb{k}({}) -> u8 {{ p{} }}\nfn qb{k}() -> u8 {{ pb{k}({}) }}", ps.join(", "), n - 1, args.join(", "));
+                    }
+                }
+            }
             0 => {
                 let _ = writeln!(s, "enum Ed{k} {{ A, A }}");
             }
